@@ -38,6 +38,8 @@ pub enum Fault {
     /// the path is a symbolic link whose target's directory does not exist / a symbolic link to itself
     DanglingSymlink,
     SymlinkLoop,
+    /// the path is a symbolic link to an existing, longer regular file (must end up holding exactly the rendering)
+    SymlinkToLonger,
     /// RLIMIT_FSIZE = permille/1000 of the full output length (in a child process)
     ShortWrite(u32),
 }
@@ -88,6 +90,7 @@ pub fn from_json(v: &Value) -> Option<Case> {
             "ReadOnlyFile" => Fault::ReadOnlyFile,
             "DanglingSymlink" => Fault::DanglingSymlink,
             "SymlinkLoop" => Fault::SymlinkLoop,
+            "SymlinkToLonger" => Fault::SymlinkToLonger,
             _ => return None,
         }
     };
@@ -279,6 +282,15 @@ pub fn check(c: &Case, obs: &mut Obs) -> Result<(), Fail> {
             let _ = std::os::unix::fs::symlink(format!("{}/gone-{}/target.{}", dir, uniq, ext), &l);
             (l, true)
         }
+        Fault::SymlinkToLonger => {
+            let mut junk = want.clone();
+            junk.extend_from_slice(&vec![b'#'; 9000]);
+            std::fs::write(&good, &junk).expect("scratch write");
+            let l = format!("{}/link-{}.{}", dir, uniq, ext);
+            let _ = std::fs::remove_file(&l);
+            let _ = std::os::unix::fs::symlink(&good, &l);
+            (l, false)
+        }
         Fault::SymlinkLoop => {
             let l = format!("{}/loop-{}.{}", dir, uniq, ext);
             let _ = std::fs::remove_file(&l);
@@ -372,7 +384,7 @@ pub fn check(c: &Case, obs: &mut Obs) -> Result<(), Fail> {
         if let Fault::ParentIsFile = c.fault {
             let _ = std::fs::remove_file(format!("{}/file-{}", dir, uniq));
         }
-        if matches!(c.fault, Fault::DanglingSymlink | Fault::SymlinkLoop) {
+        if matches!(c.fault, Fault::DanglingSymlink | Fault::SymlinkLoop | Fault::SymlinkToLonger) {
             let _ = std::fs::remove_file(&path);
         }
         if let Fault::ReadOnlyDir = c.fault {
@@ -447,6 +459,7 @@ fn fault_strategy() -> BoxedStrategy<Fault> {
         1 => Just(Fault::ReadOnlyFile),
         1 => Just(Fault::DanglingSymlink),
         1 => Just(Fault::SymlinkLoop),
+        1 => Just(Fault::SymlinkToLonger),
         6 => prop_oneof![1 => Just(0u32), 1 => Just(999u32), 4 => 0u32..1000].prop_map(Fault::ShortWrite),
     ]
     .boxed()
@@ -469,7 +482,7 @@ pub fn run(e: &'static Engine) {
     crate::engine::run_regress(e, &|c, o| replay(e, c, o));
     let all_faults = vec![
         Fault::None, Fault::ExistingLonger, Fault::MissingDir, Fault::IsDir, Fault::ParentIsFile, Fault::NameTooLong, Fault::EmbeddedNul,
-        Fault::EmptyPath, Fault::ReadOnlyProc, Fault::ReadOnlySys, Fault::DevFull, Fault::ReadOnlyDir, Fault::ReadOnlyFile, Fault::DanglingSymlink, Fault::SymlinkLoop, Fault::ShortWrite(0), Fault::ShortWrite(1), Fault::ShortWrite(500), Fault::ShortWrite(999),
+        Fault::EmptyPath, Fault::ReadOnlyProc, Fault::ReadOnlySys, Fault::DevFull, Fault::ReadOnlyDir, Fault::ReadOnlyFile, Fault::DanglingSymlink, Fault::SymlinkLoop, Fault::SymlinkToLonger, Fault::ShortWrite(0), Fault::ShortWrite(1), Fault::ShortWrite(500), Fault::ShortWrite(999),
     ];
     let mut jobs: Vec<Job> = Vec::new();
     for (wi, writer) in [Writer::Svg, Writer::Png].into_iter().enumerate() {
